@@ -652,6 +652,7 @@ func TestC13(t *testing.T) {
 			c13overflowFailDrain(rep, seed, job)
 			c13stalledReaderGoesOn(rep, seed, job)
 			c13outage(rep, seed, job)
+			c13pendingClose(rep, seed, job)
 		}
 	}
 	gomavlib.VerifSetHook(nil)
@@ -723,6 +724,94 @@ func c13overflowFailDrain(rep *vh.Report, seed uint64, idx int) {
 	} else if !eqU64(got, want) {
 		rep.Violation("what=silent-dead:overflow-fail-drain ep=custom", fmt.Sprintf("after an overflow whose backlog was drained by failing writes (%v) the channel is open with an empty queue, yet %d of %d later items came out", werr, len(got), len(want)),
 			map[string]interface{}{"channels": k, "victim": v, "written_while_stalled": nOver, "backlog_now": n.chans[v].VerifBacklog(), "got": got, "want": want})
+	}
+	if !safeClose(rep, n.node) {
+		return
+	}
+	<-n.cons.done
+}
+
+// c13pendingClose: one link fails (read error) while the application is busy elsewhere and has not yet taken the close
+// event: the failed channel is finished but still known to the node. What is written to all / all-but-one in that window
+// reaches every healthy channel, whole and in order.
+func c13pendingClose(rep *vh.Report, seed uint64, idx int) {
+	if aborted() {
+		return
+	}
+	r := vh.Sub(seed, fmt.Sprintf("c13-pending-close-%d", idx))
+	hookReset(r.U64(), false, false)
+	k := 3 + r.Intn(3)
+	n := c13start(rep, k, false, false)
+	if n == nil {
+		return
+	}
+	const fam = 0xD9
+	v := r.Intn(k)
+	// the application stops taking events
+	gate := make(chan struct{})
+	var gated int32 = 1
+	n.cons.mu.Lock()
+	var inGate int32
+	n.cons.pace = func(int64) {
+		if atomic.LoadInt32(&gated) != 0 {
+			atomic.AddInt32(&inGate, 1)
+			<-gate
+		}
+	}
+	n.cons.mu.Unlock()
+	// (the consumer takes an event and is then held before handling it: a frame event of a healthy channel, so that the
+	// close event that follows is still waiting to be taken)
+	n.trs[(v+1)%k].Feed(uidFrame(1, 0, 9, false, nil, 0))
+	waitFor(func() bool { return atomic.LoadInt32(&inGate) > 0 }, func() int64 { return int64(atomic.LoadInt32(&inGate)) }, 300*time.Millisecond)
+	n.trs[v].FeedError(errSession)
+	time.Sleep(3 * time.Millisecond) // the channel ends; its close event waits for the application
+	var want []uint64
+	nItems := 30
+	for i := 0; i < nItems; i++ {
+		uid := uint64(fam)<<56 | uint64(i+1)
+		want = append(want, uid)
+		if i%3 == 2 {
+			_ = n.node.WriteMessageExcept(n.chans[v], &MessageVfUid{Uid: uid, Kind: 1})
+		} else {
+			_ = n.node.WriteMessageAll(&MessageVfUid{Uid: uid, Kind: 1})
+		}
+		time.Sleep(200 * time.Microsecond)
+	}
+	healthy := func() int64 {
+		var p int64
+		for ti, tr := range n.trs {
+			if ti != v {
+				p += int64(tr.WriteCalls())
+			}
+		}
+		return p
+	}
+	waitFor(func() bool {
+		for ti, tr := range n.trs {
+			if ti == v {
+				continue
+			}
+			if acc, _ := wireUIDs(tr, fam); len(acc) < len(want) {
+				return false
+			}
+		}
+		return true
+	}, healthy, 500*time.Millisecond)
+	atomic.StoreInt32(&gated, 0)
+	close(gate)
+	rep.Eval(1)
+	rep.Count("pending_close_runs", 1)
+	rep.Distinct("pending-close", idx, k, v)
+	for ti, tr := range n.trs {
+		if ti == v {
+			continue
+		}
+		got, _ := wireUIDs(tr, fam)
+		if !eqU64(got, want) {
+			rep.Violation("what=starved:pending-close ep=custom", fmt.Sprintf("channel %d of %d failed and its close event had not been taken yet: healthy channel %d received %d of the %d items written to all / all-but-the-failed-one in that window", v, k, ti, len(got), len(want)),
+				map[string]interface{}{"got": got, "want_n": len(want)})
+			break
+		}
 	}
 	if !safeClose(rep, n.node) {
 		return
